@@ -5,7 +5,11 @@
 // announced operations; a lock taken without announcement would make the span
 // up to the next announcement atomic (hiding check-then-act races around it) or
 // block for real while holding the token. On a tree whose hooks are complete
-// the pass inserts nothing.
+// the pass inserts no announcement. It also inserts a plain scheduling point
+// (simYield) before every other statement of the package: in the runs whose
+// tape switches "fine-grained" mode on, the scheduler may then interleave the
+// workers between any two statements, which exposes check-then-act sequences
+// on shared state that no lock protects.
 //
 //	hookfill <repo> <scratch-repo>
 package main
@@ -55,6 +59,7 @@ func main() {
 		total += n
 	}
 	fmt.Printf("hookfill: %d announcement(s) inserted\n", total)
+	fmt.Printf("hookfill: %d statement-level yield points inserted\n", yieldsInserted)
 }
 
 func fail(err error) {
@@ -99,6 +104,9 @@ func lockCall(s ast.Stmt) (ast.Expr, bool, bool) {
 	return nil, false, false
 }
 
+var yields = true
+var yieldsInserted int
+
 func fill(path string) (int, error) {
 	fset := token.NewFileSet()
 	file, err := parser.ParseFile(fset, path, nil, parser.ParseComments)
@@ -106,10 +114,37 @@ func fill(path string) (int, error) {
 		return 0, err
 	}
 	inserted := 0
+	yield := func() ast.Stmt {
+		return &ast.ExprStmt{X: &ast.CallExpr{Fun: ast.NewIdent("simYield")}}
+	}
+	isSim := func(s ast.Stmt) bool {
+		es, ok := s.(*ast.ExprStmt)
+		if !ok {
+			return false
+		}
+		call, ok := es.X.(*ast.CallExpr)
+		if !ok {
+			return false
+		}
+		id, ok := call.Fun.(*ast.Ident)
+		return ok && strings.HasPrefix(id.Name, "sim")
+	}
 	var fix func(list []ast.Stmt) []ast.Stmt
 	fix = func(list []ast.Stmt) []ast.Stmt {
 		var out []ast.Stmt
 		for i, s := range list {
+			// a plain yield point before every statement that is neither an
+			// announcement itself nor immediately announced (the announcement
+			// is a scheduling point already), nor a declaration/defer/label
+			// that executes nothing of interest
+			switch s.(type) {
+			case *ast.DeclStmt, *ast.DeferStmt, *ast.LabeledStmt, *ast.EmptyStmt, *ast.BranchStmt, *ast.CaseClause, *ast.CommClause:
+			default:
+				if yields && !isSim(s) && (i == 0 || !isSim(list[i-1])) {
+					out = append(out, yield())
+					yieldsInserted++
+				}
+			}
 			if x, write, ok := lockCall(s); ok {
 				if i == 0 || !isAnnouncement(list[i-1]) {
 					w := "false"
@@ -138,7 +173,7 @@ func fill(path string) (int, error) {
 		}
 		return true
 	})
-	if inserted == 0 {
+	if inserted == 0 && yieldsInserted == 0 {
 		return 0, nil
 	}
 	var buf bytes.Buffer
